@@ -2,7 +2,8 @@ import P2sh.Core.Prog
 /-!
 # C07 — statements leave the operand stack balanced (core fragment)
 
-From `compileS_correct` / `compileP_correct`: the code of every statement, and of every
+From `compileS_correct` / `compileP_correct`: the code of every statement (`let`, expression
+statement, block, `while` loop), and of every
 statement sequence, takes the machine from a stack `stk` back to **the same** `stk`, whatever
 is underneath; an expression's code to `v :: stk`.  So in the core fragment the stack height
 after a statement equals the height before it, for every program and every run.
@@ -10,15 +11,23 @@ after a statement equals the height before it, for every program and every run.
 namespace P2sh.Props.C07
 open P2sh P2sh.Core
 
-theorem statement_balanced (s : CStmt) (C : List Instr) (K : List Val) (pos k : Nat) (stk g g' : List Val)
-    (h : codeAt C pos (compileS pos k s)) (hp : poolAt K k (consts s.e)) (he : evalP g [s] = some g') :
-    ∃ st', Steps C K ⟨pos, stk, g⟩ st' ∧ st'.pc = pos + bytes (compileS pos k s) ∧ st'.stk.length = stk.length :=
-  ⟨_, compileS_correct s C K pos k stk g g' h hp he, rfl, rfl⟩
+theorem statement_balanced (fuel : Nat) (s : CStmt) (C : List Instr) (K : List Val) (pos k : Nat) (stk g g' : List Val)
+    (h : codeAt C pos (compileS pos k s)) (hp : poolAt K k (constsS s)) (he : evalS fuel g s = some g') :
+    ∃ st', Steps C K ⟨pos, stk, g⟩ st' ∧ st'.pc = pos + bytes (compileS pos k s) ∧ st'.stk = stk :=
+  ⟨_, compileS_correct fuel s C K pos k stk g g' h hp he, rfl, rfl⟩
 
-theorem statements_balanced (ss : List CStmt) (C : List Instr) (K : List Val) (pos k : Nat) (stk g g' : List Val)
-    (h : codeAt C pos (compileP pos k ss)) (hp : poolAt K k (constsP ss)) (he : evalP g ss = some g') :
+theorem statements_balanced (fuel : Nat) (ss : List CStmt) (C : List Instr) (K : List Val) (pos k : Nat) (stk g g' : List Val)
+    (h : codeAt C pos (compileP pos k ss)) (hp : poolAt K k (constsP ss)) (he : evalP fuel g ss = some g') :
     ∃ st', Steps C K ⟨pos, stk, g⟩ st' ∧ st'.stk = stk :=
-  ⟨_, compileP_correct ss C K pos k stk g g' h hp he, rfl⟩
+  ⟨_, compileP_correct fuel ss C K pos k stk g g' h hp he, rfl⟩
+
+/-- a `while` loop runs in constant stack: whatever the number of iterations of a terminating
+run, the machine leaves the loop with the stack it entered it with -/
+theorem loop_constant_stack (fuel : Nat) (c : CExpr) (body : List CStmt) (C : List Instr) (K : List Val) (pos k : Nat)
+    (stk g g' : List Val) (h : codeAt C pos (compileS pos k (.whileS c body))) (hp : poolAt K k (constsS (.whileS c body)))
+    (he : evalS fuel g (.whileS c body) = some g') :
+    ∃ st', Steps C K ⟨pos, stk, g⟩ st' ∧ st'.stk = stk ∧ st'.g = g' :=
+  while_constant_stack fuel c body C K pos k stk g g' h hp he
 
 theorem expression_pushes_one (e : CExpr) (C : List Instr) (K : List Val) (pos k : Nat) (stk g : List Val) (v : Val) (g' : List Val)
     (h : codeAt C pos (compile pos k e)) (hp : poolAt K k (consts e)) (he : eval g e = some (v, g')) :
